@@ -99,7 +99,7 @@ fn settings() -> String {
 fn definition(c: &Case) -> Value {
     let mut assertions = vec![json!({"label": "c2pa.actions", "data": {"actions": [{"action": "c2pa.created", "digitalSourceType": "http://c2pa.org/digitalsourcetype/empty"}]}})];
     let mut title = "c15".to_string();
-    match c.def_variant {
+    match c.def_variant % 10 {
         1 => assertions.push(json!({"label": "org.verif.a", "data": {"k": 1, "s": "x".repeat(30)}})),
         2 => {
             title = "t".repeat(300);
@@ -305,7 +305,12 @@ fn flow(c: &Case) -> Out {
         if !c.legacy {
             let ctx = Context::new().with_settings(settings().as_str()).map_err(|e| Out::Harness(format!("{e:?}")))?.with_signer(make_signer(c));
             let mut b = Builder::from_context(ctx).with_definition(definition(c)).map_err(|e| Out::Harness(format!("{e:?}")))?;
-            let ph = b.placeholder(fmt).map_err(early("placeholder"))?;
+            let mut ph = b.placeholder(fmt).map_err(early("placeholder"))?;
+            if c.def_variant >= 10 {
+                // history: placeholder, the manifest grows, placeholder again — the caller embeds the second one
+                b.add_assertion("org.verif.late", &json!({"late": "z".repeat(400)})).map_err(|e| Out::Harness(format!("{e:?}")))?;
+                ph = b.placeholder(fmt).map_err(early("placeholder-again"))?;
+            }
             if ph.is_empty() {
                 return Err(Out::EarlyErr("placeholder", "empty".into()));
             }
@@ -557,6 +562,14 @@ fn main() {
                 let mut c = base_case(fmt, legacy);
                 c.hash_alg = h;
                 cases.push(c);
+            }
+            if !legacy {
+                for v in 10..13u8 {
+                    let mut c = base_case(fmt, legacy);
+                    c.def_variant = v;
+                    c.origin = "placeholder-twice";
+                    cases.push(c);
+                }
             }
         }
     }
